@@ -1650,6 +1650,34 @@ func (i *indexImpl) CentroidCardinalities(field string, limit int, descending bo
 	return centroidCardinalities, nil
 }
 
+// startsFromMatchAll reports whether evaluating the query begins with an
+// implicit match all, which like MatchAllQuery visits every document
+// including the nested ones: a boolean query without must and should
+// clauses, on its own or as a clause of another compound query.
+func startsFromMatchAll(q query.Query) bool {
+	switch q := q.(type) {
+	case *query.BooleanQuery:
+		if q.Must == nil && q.Should == nil {
+			return true
+		}
+		return startsFromMatchAll(q.Must) || startsFromMatchAll(q.Should) ||
+			startsFromMatchAll(q.MustNot) || startsFromMatchAll(q.Filter)
+	case *query.ConjunctionQuery:
+		for _, subq := range q.Conjuncts {
+			if startsFromMatchAll(subq) {
+				return true
+			}
+		}
+	case *query.DisjunctionQuery:
+		for _, subq := range q.Disjuncts {
+			if startsFromMatchAll(subq) {
+				return true
+			}
+		}
+	}
+	return false
+}
+
 func (i *indexImpl) buildTopNCollector(ctx context.Context, req *SearchRequest, reader index.IndexReader) (*collector.TopNCollector, error) {
 	newCollector := func() *collector.TopNCollector {
 		if req.SearchAfter != nil {
@@ -1677,7 +1705,7 @@ func (i *indexImpl) buildTopNCollector(ctx context.Context, req *SearchRequest, 
 				if err != nil {
 					return nil, err
 				}
-				if fs.HasID() || nm.IntersectsPrefix(fs) {
+				if fs.HasID() || nm.IntersectsPrefix(fs) || startsFromMatchAll(req.Query) {
 					return newNestedCollector(nr), nil
 				}
 			}
